@@ -1,7 +1,7 @@
 (** C02 -- The trace is a function of the program alone (deterministic FIFO turn order). *)
 From Coq Require Import ZArith List Sorted Bool.
 From Coq Require String.
-From Usim Require Import XTime Tables Kernel KernelProps Machine MachineProps Scenario ScenarioProps.
+From Usim Require Import XTime Tables Kernel KernelProps Machine MachineProps Scenario ScenarioProps WaitQ.
 From UsimGen Require Import Generated GeneratedProps.
 Import ListNotations.
 
@@ -33,3 +33,19 @@ Theorem C02_no_unordered_iteration :
   forallb (fun s => existsb (String.eqb s) model_unordered_whitelist) gen_unordered_iterations = true.
 Proof. exact iterations_ordered. Qed.
 Print Assumptions C02_no_unordered_iteration.
+
+(** both wait-queue back ends (USIM_WAITQUEUE: heapq+dict, SortedDict) behave identically: for EVERY sequence of
+    push/pop operations they return the same (key, bucket) for every pop and the same truth value; both refine the
+    abstract queue the kernel model uses.  Assumed contracts: heappop removes a minimum, popitem(0) the smallest key *)
+Theorem C02_backends_equivalent : forall ops, hq_run ops hq_empty = sd_run ops sd_empty.
+Proof. exact hq_sd_equiv. Qed.
+Print Assumptions C02_backends_equivalent.
+
+Theorem C02_heap_backend_refines_kernel_queue :
+  forall k v h f, R h f -> R (hq_push k v h) (wq_push k v f).
+Proof. exact hq_push_refines. Qed.
+Theorem C02_heap_backend_pop_refines :
+  forall h f, R h f ->
+    match f with [] => hq_pop h = None | (k, b) :: f' => exists h', hq_pop h = Some (k, b, h') /\ R h' f' end.
+Proof. exact hq_pop_refines. Qed.
+Print Assumptions C02_heap_backend_pop_refines.
